@@ -155,6 +155,10 @@ def defects(rows):
         yield "field name with a non-ASCII letter", put(i, 1, "näme"), i
         yield "field name starting with a non-ASCII letter", put(i, 1, "änd"), i
         yield "field name starting with a non-ASCII letter-like character", put(i, 1, "ª1"), i
+        yield "field name with an Arabic-Indic digit", put(i, 1, "a\u0663"), i
+        yield "field name with a superscript digit", put(i, 1, "x\u00b2"), i
+        yield "field name with a full-width digit", put(i, 1, "n\uff11"), i
+        yield "field name with a circled digit", put(i, 1, "a\u2460"), i
         yield "field name is a keyword", put(i, 1, "class"), i
         yield "field name is a keyword with surrounding blanks", put(i, 1, "  lambda\t"), i
         yield "empty field name", put(i, 1, "  "), i
